@@ -3,22 +3,17 @@
  * (a) Event log of the per-call units on htp_mpartp_parse: the parser hands data to the part layer only
  *     through the function pointers parser->handle_data / parser->handle_boundary and stores look-ahead
  *     through bstr_builder_append_mem(boundary_pieces).  The harness installs logging stubs for all three
- *     (contracts/c14_mpart.h); the log is the ghost state below.  Every ghost is (re)initialised by the
- *     harness, the havoc by the generated entry point only makes forgetting that visible.
+ *     (contracts/c14_mpart.h).  The ghosts below are what the stubs need besides the hand-out automaton's own
+ *     scalars (r14_*, c14_mpart.h).  Every ghost is (re)initialised by the harness; the havoc by the generated entry
+ *     point only makes forgetting that visible.  No loop invariant uses them (the units are per-call harnesses).
  */
 #ifndef GHOST_C14_H
 #define GHOST_C14_H
 
 #define GHOSTS_C14(X) \
     X(const unsigned char *, g14_chunk)   /* the caller's buffer of this call (exactly N bytes) */ \
-    X(size_t, g14_hi)                     /* chunk bytes [0, g14_hi) are accounted for (handed out, stored, or delimiter) */ \
-    X(_Bool, g14_gap_ok)                  /* a delimiter line is being swallowed: the next range may start later */ \
+    X(size_t, g14_hi)                     /* running end of the chunk bytes handed out (position of the next delimiter) */ \
     X(size_t, g14_nb)                     /* handle_boundary events */ \
-    X(size_t, g14_nd)                     /* non-empty handle_data events */ \
-    X(size_t, g14_crn)                    /* releases of the set-aside CR (the "\r" literal) */ \
-    X(size_t, g14_pc)                     /* bytes handed out from the stored pieces */ \
-    X(size_t, g14_pi) X(size_t, g14_po)   /* next stored piece / offset expected (pieces are replayed in order) */ \
-    X(_Bool, g14_started)                 /* a chunk range has been handed out or stored */ \
     X(size_t, g14_app_n)                  /* set-aside appends in this call */ \
     X(_Bool, g14_carried)                 /* entry state BOUNDARY and the carried candidate is completed by this chunk */ \
     X(size_t, g14_bmp0) X(int, g14_cr0) X(size_t, g14_np0) \
